@@ -96,6 +96,25 @@ pub fn check(t: &Trace<'_>, out: &mut CaseOut) -> bool {
             }
         }
     }
+    // ---- an accepted request whose packet the broker cannot decode at all
+    for c in &w.conns {
+        let Some((off, why)) = &c.out.error else { continue };
+        let ops: Vec<(usize, &OpRec)> = t.log.ops.iter().enumerate().filter(|(_, o)| o.conn == Some(c.idx)).collect();
+        // bytes left behind by an abandoned QoS 0 publish (documented as not cancel-safe) or by a
+        // runaway call make the framing of everything after them meaningless
+        if ops.iter().any(|(_, o)| matches!(o.outcome, Outcome::Cancelled | Outcome::Watchdog) && o.out_after > o.out_before) {
+            continue;
+        }
+        if let Some((i, o)) = ops.iter().find(|(_, o)| o.out_before <= *off && *off < o.out_after) {
+            if matches!(o.outcome, Outcome::Ok(_)) && matches!(o.kind, "publish0" | "publish1" | "publish2" | "subscribe" | "unsubscribe" | "disconnect") {
+                // is it this request's own packet (not an earlier queued one flushed by this call)?
+                let own_first = m.msgs.iter().find(|x| x.op == *i).is_none_or(|x| x.txs.is_empty());
+                if own_first {
+                    out.violations.push(viol("C09", format!("C09/request-undecodable/{}", o.kind), format!("op#{} {} returned {:?} but the broker cannot decode the packet it wrote at stream offset {}: {}", i, o.kind, o.outcome, off, why)));
+                }
+            }
+        }
+    }
     // ---- requests
     for (i, op) in t.log.ops.iter().enumerate() {
         let Some(conn) = op.conn else { continue };
